@@ -257,3 +257,46 @@ Definition parse_time (l : list Z) : lres Z :=
       end end end
   | _ => LErr
   end.
+
+(* ---------------------------------------------------------------- one entry point for all of them *)
+(* what a caller can observe, in the shape the harness prints it *)
+Inductive lit_out :=
+| LitBytes (b : list Z)        (* Blob / Uuid bytes *)
+| LitNum (v : Z)               (* Time micros *)
+| LitClass (c : lclass)
+| LitOther                     (* unmodelled function returned Ok *)
+| LitErr
+| LitPanic.
+
+Definition f_hex := 1.  Definition f_bin := 2.  Definition f_time := 3.  Definition f_lp := 4.
+Definition f_lpt := 5.  Definition f_uuid := 6. Definition f_vector := 7.
+
+Definition of_bytes (r : lres (list Z)) : lit_out :=
+  match r with LOk b => LitBytes b | LErr => LitErr | LPanic => LitPanic end.
+Definition of_class (r : lres lclass) : lit_out :=
+  match r with LOk c => LitClass c | LErr => LitErr | LPanic => LitPanic end.
+
+(* None = function not modelled *)
+Definition run_lit (f : Z) (l : list Z) : option lit_out :=
+  if f =? f_hex then Some (of_bytes (parse_hex_blob l))
+  else if f =? f_bin then Some (of_bytes (parse_binary_blob l))
+  else if f =? f_time then Some (match parse_time l with LOk v => LitNum v | LErr => LitErr | LPanic => LitPanic end)
+  else if f =? f_lp then Some (of_class (literal_parse l))
+  else if f =? f_lpt then Some (of_class (literal_parse_typed_text l))
+  else if f =? f_uuid then Some (of_bytes (parse_uuid l))
+  else if f =? f_vector then Some (of_class (parse_vector l))
+  else None.
+
+(* the input classes in which the real parsers were found to panic (known findings 1..4):
+   1 parse_hex_blob / 2 parse_binary_blob on text with a non-ASCII character,
+   3 parse_time with a non-ASCII character in the fractional-seconds part,
+   4 LiteralParser::parse / parse_typed(text) on a text that is, after trimming, one quote character *)
+Definition has_non_ascii (l : list Z) : bool := existsb (fun b => negb (is_ascii b)) l.
+Definition after_dot (l : list Z) : list Z :=
+  match find_byte 46 l with Some i => skipn (S i) l | None => [] end.
+Definition lit_known (f : Z) (l : list Z) : Z :=
+  if (f =? f_hex) && has_non_ascii l then 1
+  else if (f =? f_bin) && has_non_ascii l then 2
+  else if (f =? f_time) && has_non_ascii (after_dot (trim l)) then 3
+  else if ((f =? f_lp) || (f =? f_lpt)) && (zl_eqb (trim l) [39] || zl_eqb (trim l) [34]) then 4
+  else 0.
